@@ -923,6 +923,21 @@ def replay_test_structured(a):
                     return {"reproduced": True, "rules_file": rules, "test_file": text(order), "cmd": f"cfn-guard test -r r.guard -t t.yaml -o {fmt}",
                             "expected": "exit 0 and every expectation met (each case alone meets them)", "exit": pr.returncode,
                             "observed": detail if detail is not None else pr.stdout[:600]}
+            # one UNMET expectation somewhere in the file: exit 7, whatever its position
+            for order, bad_at in ((["x"], 0), (["x", "y"], 0), (["x", "y"], 1), (["y", "z", "x"], 1)):
+                t = text(order)
+                victim = order[bad_at]
+                wrong = {"PASS": "FAIL", "FAIL": "PASS", "SKIP": "PASS"}[cases[victim][1]["base"]]
+                blocks = t.split("- name: ")
+                blocks[bad_at + 1] = blocks[bad_at + 1].replace(f"base: {cases[victim][1]['base']}", f"base: {wrong}", 1)
+                open(os.path.join(d, "t.yaml"), "w").write("- name: ".join(blocks))
+                pr = subprocess.run([exe, "test", "-r", os.path.join(d, "r.guard"), "-t", os.path.join(d, "t.yaml"), "-o", fmt],
+                                    capture_output=True, text=True, env=env, timeout=60)
+                ok = pr.returncode == 7
+                tried.append({"fmt": fmt, "order": order, "unmet_in_case": bad_at, "ok": ok, "exit": pr.returncode})
+                if not ok:
+                    return {"reproduced": True, "rules_file": rules, "test_file": "- name: ".join(blocks), "cmd": f"cfn-guard test -r r.guard -t t.yaml -o {fmt}",
+                            "expected": "exit 7 (one expectation is not met)", "exit": pr.returncode, "observed": pr.stdout[:400]}
         return {"reproduced": False, "tried": tried}
     finally:
         shutil.rmtree(d, ignore_errors=True)
